@@ -50,6 +50,17 @@ func main() {
 			usage()
 		}
 		os.Exit(cmdIDs(path))
+	case "keys", "keygen", "keysearch": // C18, see keys.go
+		switch {
+		case os.Args[1] == "keygen":
+			os.Exit(cmdKeygen(os.Args[2:]))
+		case os.Args[1] == "keysearch":
+			os.Exit(cmdKeysearch(os.Args[2:]))
+		case len(os.Args) == 3:
+			os.Exit(cmdKeys(os.Args[2]))
+		default:
+			os.Exit(cmdKeys("-"))
+		}
 	case "addrs":
 		escrow, deposit, collector := moduleAddrs()
 		fmt.Printf("%x %x %x\n", []byte(escrow), []byte(deposit), []byte(collector))
